@@ -60,6 +60,14 @@ class Impl:
         self.deferred_answers = {}
         self.reactor = MemoryReactorClock()
         self.st = SimTor()
+        if case.get('consensus'):
+            # a consensus in which some hop names belong to other relays (relay0, named), one hop is listed under its own
+            # fingerprint (relay1) and the rest are unknown: a hop is identified by its fingerprint, whatever it is called
+            import base64
+            def r_line(nick, idbytes):
+                return 'r %s %s %s 2030-01-01 00:00:00 10.0.0.1 9001 0' % (nick, base64.b64encode(idbytes).decode().rstrip('='), 'A' * 27)
+            self.st.info['ns/all'] = [r_line('relay0', bytes([1] * 20)), 's Fast Running', r_line('relay1', bytes([0xBB] * 20)), 's Fast Guard',
+                                      r_line('named', bytes([2] * 20)), 's Fast', r_line('relay3', bytes([3] * 20)), 's Exit']
         self.st.info['circuit-status'] = list(case.get('snap_c') or [])
         self.st.info['stream-status'] = list(case.get('snap_s') or [])
         self.st.hold_prefixes.update(HELD)
@@ -210,6 +218,23 @@ class Impl:
                 from txtorcon.circuit import _get_circuit_attacher
                 d = _get_circuit_attacher(self.reactor, self.state)
                 d.addCallbacks(lambda a: self.attachers.__setitem__(0, a), lambda f: self.log.append(['e', err_kind(str(f.value))]) and None)
+            elif k == 'att' and op[1] is not None and op[1] >= 7:
+                # a PriorityAttacher installed while it is still empty, and populated afterwards (its one sub-attacher
+                # gives the scripted answers): for the model it is an attacher like any other
+                if op[1] not in self.attachers:
+                    from txtorcon.attacher import PriorityAttacher
+                    self.attachers[op[1]] = PriorityAttacher()
+                    fresh = True
+                else:
+                    fresh = False
+                pa = self.attachers[op[1]]
+                try:
+                    d = self.state.set_attacher(pa, self.reactor)
+                    if d is not None:
+                        d.addErrback(lambda f: None)
+                finally:
+                    if fresh:
+                        pa.add_attacher(make_attacher(self, op[1]), 0)
             elif k == 'att':
                 d = self.state.set_attacher(None if op[1] is None else self.attacher(op[1]), self.reactor)
                 if d is not None:
